@@ -230,7 +230,11 @@ CONTRACTS = [
              args=[ClientArg()], call=lambda it, fn, a: it.getattr(a[0], "http_headers"),
              ensures=[("headers", "spec.client.headers_ok(result, self.useragent)")], props=["C14"], symbolic_only=True),
 ]
-for nm, extra in (("request_statements", ()), ("request_accounts", (datetime.datetime(2020, 1, 1, tzinfo=datetime.timezone.utc),)), ("request_tax1099", ())):
+ACCTUP_DATE = Marker("the-date-the-caller-asks-with", tzinfo=Marker("its-own-zone"),
+                     # whatever is derived from the caller's date is another object (a relabelled or shifted date-time)
+                     replace=lambda *a, **k: Marker("a-date-derived-from-the-caller's"), astimezone=lambda *a, **k: Marker("a-date-derived-from-the-caller's"),
+                     utcoffset=lambda *a, **k: Marker("its-offset"))
+for nm, extra in (("request_statements", ()), ("request_accounts", (ACCTUP_DATE,)), ("request_tax1099", ())):
     CONTRACTS.append(Contract(
         f"ofxtools.Client:OFXClient.{nm}",
         args=[ClientArg(), T("password"), BoolArg("dryrun"), BoolArg("skip_profile")], call=call_request(nm, extra),
@@ -239,7 +243,10 @@ for nm, extra in (("request_statements", ()), ("request_accounts", (datetime.dat
                  ("dryrun-passed-on", "spec.client.calls(ghost, 'download')[0][2]['dryrun'] is dryrun"),
                  ("profile-looked-up-only-when-needed", "len(spec.client.calls(ghost, '_get_service_urls')) == (0 if (dryrun or skip_profile) else 1)"),
                  ("credentials", "len(spec.client.calls(ghost, 'signon')) == 1 and spec.client.calls(ghost, 'signon')[0][1] is password and spec.client.calls(ghost, 'signon')[0][2] is None")],
-        notes="no requests given (the composition of the wrappers is C06)", props=["C14"], symbolic_only=True))
+        notes="no requests given (the composition of the wrappers is C06)", props=["C14"] + (["C06"] if nm == "request_accounts" else []), symbolic_only=True))
+    if nm == "request_accounts":
+        CONTRACTS[-1].ensures.append(("C06-the-date-asked-with-is-the-caller's, as it is",
+                                      "len(spec.client.calls(ghost, 'ACCTINFORQ')) == 1 and spec.client.calls(ghost, 'ACCTINFORQ')[0][2]['dtacctup'] is spec.client.ACCTUP_DATE()"))
 CONTRACTS += [
     # 6 ------------------------------------------------------------------ profile requests carry only the placeholder credentials
     Contract("ofxtools.Client:OFXClient._request_profile",
@@ -577,3 +584,9 @@ for order in ([BANKMSGSET, CREDITCARDMSGSET, INVSTMTMSGSET], [INVSTMTMSGSET, CRE
                                        ("one-profile-request", "len(spec.client.calls(ghost, 'request_profile')) == 1")],
                               notes=f"message sets {[c.__name__ for c in order]} each listed or not; URLs opaque texts: returned as they are (no rewriting), closing-statement requests mapped iff CLOSINGAVAIL",
                               props=["C14"], symbolic_only=True))
+
+
+import contracts.spec.client as _spc3
+_spc3.ACCTUP_DATE = lambda: ACCTUP_DATE
+_spc3.ACCTUP_DATE._pyvc_model = lambda it, a, kw: ACCTUP_DATE
+_spc3.ACCTUP_DATE._pyvc_always = True
